@@ -287,7 +287,7 @@ func vRunVecQuery(idx VectorIndex, q vVecQuery) ([]VectorResult, error) {
 // vBuildVecSearch prepares (but does not execute) the search object for q.
 func vBuildVecSearch(idx VectorIndex, q vVecQuery) VectorSearch {
 	s := idx.NewSearch()
-	if q.Node != 0 {
+	if q.Node != 0 || q.Q == nil {
 		s = s.WithNode(q.Node)
 	} else {
 		s = s.WithQuery(vCopyVec(q.Q))
